@@ -30,6 +30,7 @@ DIRECTIVES = (
     "##gff-version 3",
     "##sequence-region chr1 1 1000",
     "###",                      # the 'forward references resolved' line is a '##' line: text '#'
+    "###resolved", "#####",     # further '#' after the marker belong to the text
     "##",                       # empty directive text
     "## spaced  ",              # leading / trailing blanks belong to the text
     "##\ttab\t",
